@@ -129,7 +129,7 @@ EXPORT errno_t _strcasestr_s_chk(char *dest, rsize_t dmax, const char *src,
         return (EOK);
     }
 
-    while (*dest && dmax) {
+    while (dmax && *dest) {
         i = 0;
         len = slen;
         dlen = dmax;
